@@ -13,7 +13,7 @@ def run(ctx):
                 "collection timeouts {0,1 tick,5 ms}; complete traces compared with the model; implementation trace judged by check_C12")
     ctx.assumptions = ["answer clauses are judged when the oracle draws are all equal; a FindService at the very instant of a lifecycle change is not judged (order-dependent)"]
     n = 300 if quick else 10000
-    scs = stackprop.corpus_scenarios("C12") + [scen.server_scenario(r) for _ in range(n)]
+    scs = stackprop.corpus_scenarios("C12") + [scen.server_scenario(r) if k % 2 else scen.lifecycle_scenario(r) for k in range(n)]
     stackprop.run_scenarios(ctx, scs, 3012, CODES, what="find answers")
 
 
